@@ -75,7 +75,18 @@ func (fc *FaucetSmartContract) setSC(sc *smartcontractinterface.SmartContract, _
 	fc.SmartContractExecutionStats["token refills"] = metrics.GetOrRegisterHistogram(fmt.Sprintf("sc:%v:func:%v", fc.ID, "token refills"), nil, metrics.NewUniformSample(1024))
 }
 
+// pourAmountFor is the number of tokens a pour transaction transfers: the requested value when it lies
+// strictly between 0 and max_pour_amount, the default pour_amount otherwise
+func (gn *GlobalNode) pourAmountFor(t *transaction.Transaction) currency.Coin {
+	if t.Value > 0 && t.Value < gn.MaxPourAmount {
+		return t.Value
+	}
+	return gn.PourAmount
+}
+
 func (un *UserNode) validPourRequest(t *transaction.Transaction, balances c_state.StateContextI, gn *GlobalNode) (bool, error) {
+	// the limits are checked with the amount that pour will really transfer
+	amount := gn.pourAmountFor(t)
 	smartContractBalance, err := balances.GetClientBalance(gn.ID)
 	if err == util.ErrValueNotPresent {
 		logging.Logger.Error("faucet sc state was not initialized", zap.String("ID", gn.ID))
@@ -84,11 +95,11 @@ func (un *UserNode) validPourRequest(t *transaction.Transaction, balances c_stat
 	if err != nil {
 		return false, common.NewError("invalid_request", fmt.Sprintf("getting faucet balance resulted in an error: %v", err.Error()))
 	}
-	if gn.PourAmount > smartContractBalance {
+	if amount > smartContractBalance {
 		return false, common.NewError("invalid_request", fmt.Sprintf("amount asked to be poured (%v) exceeds contract's wallet ballance (%v)", t.Value, smartContractBalance))
 	}
 
-	totalAmount, err := currency.AddCoin(gn.PourAmount, un.Used)
+	totalAmount, err := currency.AddCoin(amount, un.Used)
 	if err != nil {
 		return false, common.NewError("invalid_request", fmt.Sprintf("amount asked to be poured (%v) plus previous amount (%v) is not a valid currency. error: %v", gn.PourAmount, un.Used, err))
 	}
@@ -98,7 +109,7 @@ func (un *UserNode) validPourRequest(t *transaction.Transaction, balances c_stat
 				t.Value, un.Used, gn.PeriodicLimit, gn.IndividualReset.String()))
 	}
 
-	totalGAmount, err := currency.AddCoin(gn.PourAmount, gn.Used)
+	totalGAmount, err := currency.AddCoin(amount, gn.Used)
 	if err != nil {
 		return false, common.NewError("invalid_request", fmt.Sprintf("amount asked to be poured (%v) plus global used amount (%v) is not a valid currency. error: %v", gn.PourAmount, gn.Used, err))
 	}
@@ -162,10 +173,7 @@ func (fc *FaucetSmartContract) pour(t *transaction.Transaction, _ []byte, balanc
 
 	ok, err := user.validPourRequest(t, balances, gn)
 	if ok {
-		var pourAmount = gn.PourAmount
-		if t.Value > 0 && t.Value < gn.MaxPourAmount {
-			pourAmount = t.Value
-		}
+		var pourAmount = gn.pourAmountFor(t)
 		tokensPoured := fc.SmartContractExecutionStats["tokens Poured"].(metrics.Histogram)
 		transfer := state.NewTransfer(t.ToClientID, t.ClientID, pourAmount)
 		if err := balances.AddTransfer(transfer); err != nil {
